@@ -692,6 +692,54 @@ def support_models(ctx, n):
             ctx.violation(sig, what, detail)
 
 
+def residual_callforms(phot, data, use_unit, psf_shape, inc, mimg):
+    """make_residual_image over the call-form axis: the same image handed over as ndarray / Quantity,
+    NDData (with the unit if any) and NDData with uncertainty + mask.  Every form must give
+    data - make_model_image(shape, psf_shape, include_localbkg) bitwise (NDData: in .data, unit, mask and
+    uncertainty carried over, input object untouched).  Returns (signature, what) or None."""
+    import astropy.units as u
+    from astropy.nddata import NDData, StdDevUncertainty
+    unit = u.Jy if use_unit else None
+    want = data - np.asarray(getattr(mimg, 'value', mimg), float)            # np.subtract(data, model)
+    if getattr(mimg, 'unit', None) != unit:
+        return ('support:psfphot:units', f'model image unit {getattr(mimg, "unit", None)} != data unit {unit}')
+    mask = np.zeros(data.shape, bool)
+    mask[0, 0] = mask[-1, -2] = True
+    err = np.full(data.shape, 0.25)
+    forms = [('quantity' if use_unit else 'ndarray', data * unit if use_unit else data.copy()),
+             ('nddata', NDData(data.copy(), unit=unit)),
+             ('nddata+uncertainty+mask', NDData(data.copy(), unit=unit, uncertainty=StdDevUncertainty(err.copy()),
+                                               mask=mask.copy()))]
+    for name, obj in forms:
+        try:
+            r = phot.make_residual_image(obj, psf_shape=psf_shape, include_localbkg=inc)
+        except Exception as e:  # noqa: BLE001
+            return ('support:psfphot:residual-callform:raises:' + type(e).__name__,
+                    f'make_residual_image raised for {name} input: ' + str(e)[:100])
+        if isinstance(obj, NDData):
+            if not isinstance(r, NDData) or r.unit != unit:
+                return ('support:psfphot:residual-callform:' + name, 'NDData input did not give an NDData residual '
+                        'with the same unit')
+            vals = np.asarray(r.data, float)
+            if not np.array_equal(obj.data, data) or (obj.mask is not None and not np.array_equal(obj.mask, mask)):
+                return ('support:psfphot:residual-callform:input-modified', f'{name} input modified')
+            if obj.mask is not None and (r.mask is None or not np.array_equal(r.mask, mask)
+                                         or r.uncertainty is None
+                                         or not np.array_equal(r.uncertainty.array, err)):
+                return ('support:psfphot:residual-callform:' + name, 'mask / uncertainty of the NDData input not '
+                        'carried over to the residual')
+        else:
+            if getattr(r, 'unit', None) != unit:
+                return ('support:psfphot:residual-callform:' + name, 'residual unit differs from the data unit')
+            vals = np.asarray(getattr(r, 'value', r), float)
+            if not np.array_equal(np.asarray(getattr(obj, 'value', obj)), data):
+                return ('support:psfphot:residual-callform:input-modified', f'{name} input modified')
+        if vals.shape != want.shape or not np.array_equal(vals, want):
+            return ('support:psfphot:residual-callform:' + name,
+                    f'residual for {name} input != data - make_model_image(shape, psf_shape, include_localbkg)')
+    return None
+
+
 def support_psfphot(ctx, n):
     """PSFPhotometry / IterativePSFPhotometry model and residual images."""
     import astropy.units as u
@@ -724,13 +772,17 @@ def support_psfphot(ctx, n):
         data = make_model_image((ny, nx), psf, truth, model_shape=(9, 9))
         data = data + np.array([[((7 * y + 3 * x) % 5) * 0.01 for x in range(nx)] for y in range(ny)]) + 0.5
         use_unit = rng.random() < 0.3 and not iterative      # (the star finder's threshold is unit-less)
-        use_lb = rng.random() < 0.5
+        lbsrc = ['estimator', 'column', 'none', 'column', 'estimator'][it % 5]   # source of the local background
+        use_lb = lbsrc == 'estimator'
         lb = LocalBackground(4, 7) if use_lb else None
         init = (QTable if use_unit else Table)({'x': [x + rng.uniform(-0.3, 0.3) for x in xs[:ninit]],
                                                 'y': [y + rng.uniform(-0.3, 0.3) for y in ys[:ninit]]})
         init['flux'] = np.array(fl[:ninit]) * u.Jy if use_unit else np.array(fl[:ninit])
+        if lbsrc == 'column':
+            bk0 = np.array([rng.uniform(0.2, 0.9) for _ in range(ninit)])
+            init['local_bkg'] = bk0 * u.Jy if use_unit else bk0
         d = data * u.Jy if use_unit else data
-        detail = {'shape': [ny, nx], 'x': xs, 'y': ys, 'flux': fl, 'unit': use_unit, 'localbkg': use_lb,
+        detail = {'shape': [ny, nx], 'x': xs, 'y': ys, 'flux': fl, 'unit': use_unit, 'localbkg': lbsrc,
                   'iterative': iterative}
         with warnings.catch_warnings():
             warnings.simplefilter('ignore')
@@ -760,6 +812,11 @@ def support_psfphot(ctx, n):
                                       dict(detail, psf_shape=psf_shape, include_localbkg=inc))
                         continue
                     ctx.support('psfphot:model_image' + (':iterative' if iterative else ''))
+                    ctx.stat('psfphot', f'localbkg={lbsrc}:include={inc}:nonzero='
+                             f'{bool(np.any(_arr(res["local_bkg"]) != 0))}')
+                    cf = residual_callforms(phot, data, use_unit, psf_shape, inc, mimg)
+                    if cf:
+                        ctx.violation(cf[0], cf[1], dict(detail, psf_shape=psf_shape, include_localbkg=inc))
                     ctx.count_case(['psfphot', ny, nx, xs, ys, str(psf_shape), inc, iterative], True)
                     # residual is exactly data - model image (bitwise, same unit)
                     want_res = d - mimg
@@ -795,18 +852,6 @@ def support_psfphot(ctx, n):
                         ctx.violation('support:psfphot:superposition',
                                       'PSFPhotometry.make_model_image differs from the superposition of the '
                                       'fitted sources', dict(detail, psf_shape=psf_shape, include_localbkg=inc))
-            # NDData input
-            try:
-                nd = NDData(data, unit=u.Jy if use_unit else None)
-                r_nd = phot.make_residual_image(nd, psf_shape=(7, 7))
-                r_arr = phot.make_residual_image(d, psf_shape=(7, 7))
-                ctx.support('psfphot:residual_nddata')
-                if not np.array_equal(np.asarray(r_nd.data), np.asarray(getattr(r_arr, 'value', r_arr))) \
-                        or not np.array_equal(nd.data, data):
-                    ctx.violation('support:psfphot:residual-nddata', 'NDData residual differs from array residual '
-                                  'or input NDData modified', detail)
-            except Exception as e:  # noqa: BLE001
-                ctx.violation('support:psfphot:residual-nddata:raises:' + type(e).__name__, str(e)[:120], detail)
 
 
 def _arr(q):
@@ -830,7 +875,8 @@ def history_run(detail, on_request=None):
     from photutils.datasets import make_model_image
     from photutils.detection import DAOStarFinder
     from photutils.psf import CircularGaussianPRF, IterativePSFPhotometry, PSFPhotometry, SourceGrouper
-    kind, fw, use_lb, use_unit = detail['kind'], detail['fwhm'], detail['localbkg'], detail['unit']
+    kind, fw, use_unit = detail['kind'], detail['fwhm'], detail['unit']
+    use_lb = detail['localbkg'] in (True, 'estimator')
 
     def make():
         psf = CircularGaussianPRF(fwhm=fw)
@@ -851,6 +897,8 @@ def history_run(detail, on_request=None):
         data = data + np.array([[((7 * y + 3 * x) % 5) * 0.01 for x in range(nx)] for y in range(ny)]) + 0.5
         init = (QTable if use_unit else Table)({'x': list(step['x_init']), 'y': list(step['y_init'])})
         init['flux'] = np.array(fl[:ninit]) * u.Jy if use_unit else np.array(fl[:ninit])
+        if step.get('bkg_init') is not None:
+            init['local_bkg'] = np.array(step['bkg_init']) * u.Jy if use_unit else np.array(step['bkg_init'])
         d = data * u.Jy if use_unit else data
         with warnings.catch_warnings():
             warnings.simplefilter('ignore')
@@ -886,6 +934,9 @@ def history_run(detail, on_request=None):
                             'run on the same image', extra), done
                 if not _same(rimg, d - mimg):
                     return ('support:psfphot-history:residual', 'residual image != data - model image', extra), done
+                cf = residual_callforms(phot, data, use_unit, psf_shape, inc, mimg)
+                if cf:
+                    return (cf[0].replace('support:psfphot:', 'support:psfphot-history:'), cf[1], extra), done
                 if psf_shape is not None:
                     tb = tb0.copy()
                     if inc:
@@ -916,7 +967,8 @@ def support_psfphot_history(ctx, n):
         kind = ['psfphot', 'iter-new', 'iter-all'][it % 3]
         hist = []
         detail = {'support': 'psfphot-history', 'kind': kind, 'fwhm': rng.choice([2.0, 2.5, 3.0]),
-                  'localbkg': rng.random() < 0.5, 'unit': kind == 'psfphot' and rng.random() < 0.3, 'history': hist}
+                  'localbkg': rng.choice(['estimator', 'column', 'none']),
+                  'unit': kind == 'psfphot' and rng.random() < 0.3, 'history': hist}
         shape0 = (rng.randint(15, 22), rng.randint(15, 22))
         for k in range(rng.choice([2, 2, 3])):
             # mostly the same frame (so that any key built from the arguments collides), sometimes another
@@ -936,6 +988,8 @@ def support_psfphot_history(ctx, n):
             hist.append({'shape': [ny, nx], 'x': xs, 'y': ys, 'flux': fl, 'n_init': ninit,
                          'x_init': [x + rng.uniform(-0.3, 0.3) for x in xs[:ninit]],
                          'y_init': [y + rng.uniform(-0.3, 0.3) for y in ys[:ninit]],
+                         'bkg_init': [rng.uniform(0.2, 0.9) for _ in range(ninit)]
+                         if detail['localbkg'] == 'column' else None,
                          'requests': [[list(a) if isinstance(a, tuple) else a, b] for a, b in reqs]})
 
         def on_request(k, psf_shape, inc, kind=kind, detail=detail):
@@ -1013,6 +1067,11 @@ def run(ctx):
         'driven through the public API after a real fit; residual == data - model image compared bitwise, '
         'superposition compared with the rounding bound (support tests; the fit itself is C12); the theorem '
         'residual_is_data_minus_model is about C18_Model.residual (np.subtract(data, model image))',
+        'residual call forms: after every fit (plain and history tests) make_residual_image is called with the '
+        'image as ndarray / Quantity, NDData (+unit) and NDData with uncertainty + mask, for include_localbkg in '
+        '{False, True}, local backgrounds from a localbkg_estimator, from a local_bkg column of init_params, or '
+        'none: each must equal data - make_model_image(shape, psf_shape, include_localbkg) bitwise, NDData '
+        'meta-data carried over and inputs untouched (support test)',
         'histories: one PSFPhotometry / IterativePSFPhotometry (new, all) instance re-used on 2-3 different images '
         'with model / residual images requested between and after the calls (varying and repeated arguments): '
         'each request == superposition of the results table of that call == fresh instance, residual == data - model '
